@@ -683,6 +683,29 @@ def rule_pa_litflow(cx, rep, port):
             if params:
                 hit = hit or _applies_matching(g, params[0], by_name, 0)
         rep.decide(hit is None, 'literal-bearing text passed to {}'.format(short), c, '{} does no pattern matching on it'.format(short), '{} receives text with the string literals re-inserted and matches structure in it (`{}`): literal contents can change the parse'.format(short, node_text(hit, 80) if hit is not None else ''))
+    # once the literals are back in a text, nothing may take that text apart: in every engine function, the result of
+    # combine_string_literals is not the subject of a split / search / regex operation
+    for fname, cands_ in sorted(by_name.items()):
+        for m_, g_ in cands_:
+            if m_ != mod:
+                continue
+            comb = set()
+            for a_ in walk_no_nested(g_):
+                if isinstance(a_, ast.Assign) and isinstance(a_.value, ast.Call) and (call_name(a_.value) or '').split('.')[-1] == 'combine_string_literals':
+                    comb |= set(_names_of_target(a_.targets[0]))
+            for c_ in walk_no_nested(g_):
+                if not isinstance(c_, ast.Call):
+                    continue
+                subj = None
+                if isinstance(c_.func, ast.Attribute) and c_.func.attr in MATCHING_METHODS - {'startswith', 'endswith', 'startsWith', 'endsWith', 'count', 'replace', 'replaceAll', 'includes'}:
+                    subj = c_.func.value
+                elif (dotted(c_.func) or '').startswith('re.') and len(c_.args) >= 2:
+                    subj = c_.args[1] if dotted(c_.func) not in ('re.sub', 're.subn') else (c_.args[2] if len(c_.args) > 2 else None)
+                if subj is None:
+                    continue
+                direct = isinstance(subj, ast.Call) and (call_name(subj) or '').split('.')[-1] == 'combine_string_literals'
+                if direct or (isinstance(subj, ast.Name) and subj.id in comb and not any(isinstance(a_, ast.Assign) and subj.id in _names_of_target(a_.targets[0]) and not (isinstance(a_.value, ast.Call) and (call_name(a_.value) or '').split('.')[-1] == 'combine_string_literals') and a_.lineno < c_.lineno and a_.lineno > min(x.lineno for x in walk_no_nested(g_) if isinstance(x, ast.Assign) and subj.id in _names_of_target(x.targets[0])) for a_ in walk_no_nested(g_))):
+                    rep.violated('structure after re-insertion in {}'.format(fname), c_, '`{}` takes apart a text in which the string literals were already re-inserted: a `,`, keyword or quote inside a literal is treated as query structure'.format(node_text(c_, 80)))
     # every fragment stored into query_context passes through combine_string_literals
     stores = [n for n in walk_no_nested(sp) if isinstance(n, ast.Assign) and (dotted(n.targets[0]) or '').startswith('query_context.') and dotted(n.targets[0]).split('.')[1] in ('where_expression', 'select_expression', 'update_expressions', 'sort_key_expression', 'aggregation_key_expression', 'variables_init_code')]
     for s in stores:
@@ -1181,4 +1204,4 @@ def rule_pa_subst(cx, rep, port):
                 rep.undecided('{}: replacement `{}`'.format(where, node_text(repl, 40)), c, 'non-constant replacement template that does not derive from a parameter: its content is not analysed')
             else:
                 rep.violated('{}: replacement `{}`'.format(where, node_text(repl, 40)), c, 'the replacement operand `{}` is not a constant: {} interprets it as a template ({}), so text substituted here is altered when it contains those sequences'.format(node_text(repl, 60), 'String.replace' if port == 'js' else 're.sub', '`$&`, `$1`, `$$`' if port == 'js' else 'backslash escapes and group references'))
-    rep.require_count('template-interpreting substitutions', n, 20 if port == 'js' else 8, (p.files[mods[0]], 0))
+    rep.require_count('template-interpreting substitutions', n, 12 if port == 'js' else 5, (p.files[mods[0]], 0))
